@@ -143,9 +143,43 @@ def _flatten_membership(e, env):
         if isinstance(t, ast.Name) and t.id in env and isinstance(env[t.id], (ast.Compare, ast.BoolOp, ast.UnaryOp)):
             go(env[t.id])
             return
+        # (False if A else B)  is  (not A) and B ;  (B if A else False)  is  A and B
+        if isinstance(t, ast.IfExp) and isinstance(t.body, ast.Constant) and t.body.value is False:
+            go(ast.UnaryOp(op=ast.Not(), operand=t.test))
+            go(t.orelse)
+            return
+        if isinstance(t, ast.IfExp) and isinstance(t.orelse, ast.Constant) and t.orelse.value is False:
+            go(t.test)
+            go(t.body)
+            return
         out.append(t)
     go(e)
     return out
+
+
+def _own_key_is_counted(t, counter, key_text):
+    """`K in C` with C the per-sample counter over the very list the comprehension walks and K that element's own key is true for every
+    element: the test is dropped from conjunctions (`K in C and C[K] < k` is `C[K] < k`)"""
+    import copy
+
+    class T(ast.NodeTransformer):
+        def visit_Compare(self, n):
+            self.generic_visit(n)
+            if len(n.ops) == 1 and isinstance(n.ops[0], ast.In) and U(n.comparators[0]) == counter and U(n.left).replace(" ", "") == key_text:
+                return ast.copy_location(ast.Constant(value=True), n)
+            return n
+
+        def visit_BoolOp(self, n):
+            self.generic_visit(n)
+            if isinstance(n.op, ast.And):
+                vals = [v for v in n.values if not (isinstance(v, ast.Constant) and v.value is True)]
+                if not vals:
+                    return ast.copy_location(ast.Constant(value=True), n)
+                if len(vals) == 1:
+                    return vals[0]
+                n.values = vals
+            return n
+    return T().visit(copy.deepcopy(t))
 
 
 def r3(ctx):
@@ -274,7 +308,7 @@ def r3(ctx):
         if g2 is not None:
             tests = []
             for t in g2[2]:
-                tests += _flatten_membership(t, penv2)
+                tests += [_own_key_is_counted(x, remc, f"{pv2}.sample_ids[0]") for x in _flatten_membership(t, penv2)]
             c_new = frozenset(N.b(t, integer=True) if not (isinstance(t, ast.Compare) and isinstance(t.ops[0], (ast.In, ast.NotIn))) else N.b(t) for t in tests)
     else:
         want_new = None if pv2 is None else frozenset([N.b(parse_expr(f"{pv2}.sample_ids[0] not in {insuff[0]}")), N.b(parse_expr(f"{pv2}.sample_ids[0] not in {selc}"))])
